@@ -512,7 +512,7 @@ Section Parser.
       if (next =? 91) || (next =? 123) then Err 99
       else if next =? 40 then
         match dec_brace (c_home cf) (c_ansi cf) t_lookup [] [] 0 (List.tl tl) with
-        | Ok (v, n) => app s (lits (expand_consts (c_ansi cf) v)) (S n)
+        | Ok (v, n) => app_zl s (lits (expand_consts (c_ansi cf) v)) (S n)   (* zl: fix 636e723 *)
         | Err k => Err k | Panic => Panic | OutOfFuel => OutOfFuel
         end
       else lit1 s c
